@@ -393,8 +393,14 @@ class symeig_torchfcn(torch.autograd.Function):
             gevecsM = -gevecsA * evals.unsqueeze(-2)
 
             # the contribution from the parallel elements
-            gevecsM_par = (-0.5 * torch.einsum("...ae,...ae->...e", grad_evecs, evecs.conj())
-                           ).unsqueeze(-2) * evecs  # (*BAM, na, neig)
+            if idx_degen is None:
+                gevecsM_par = (-0.5 * torch.einsum("...ae,...ae->...e", grad_evecs, evecs.conj())
+                               ).unsqueeze(-2) * evecs  # (*BAM, na, neig)
+            else:
+                # the normalization X^H M X = I fixes the components of dX along
+                # all the degenerate partners, not only along the vector itself
+                xtg = torch.matmul(evecs.transpose(-2, -1).conj(), grad_evecs)  # (*BAM, neig, neig)
+                gevecsM_par = -0.5 * torch.matmul(evecs, idx_degen * xtg)  # (*BAM, na, neig)
 
             gaccumM = gevalsM + gevecsM + gevecsM_par
             grad_mparams = torch.autograd.grad(
